@@ -105,6 +105,21 @@ func CatalogueForms() []Form {
 		c("iface_second_param_struct", "q := NSquare{side: y % 1000}\nr = nmeasure2(x%7, q)"),
 		c("iface_second_param_field", "cv := &NCanvas{sq: NSquare{side: x % 1000}, scale: 2}\nr = nmeasure2(x%7, cv.sq)"),
 		c("iface_first_param_struct", "q := NSquare{side: y % 1000}\nr = nmeasure(q)"),
+		// multiple results flowing straight into a call, two-value map lookups in the assignment form, nil on the left
+		c("call_spread_multi_result", "r = addBoth(twoU(x))"),
+		c("call_spread_multi_result_method", "q1, q2 := twoU(x)\nr = addBoth(q1, q2)"),
+		c("return_multi_result_call", "fn := func() (uint64, uint64) {\n\treturn twoU(x)\n}\nq1, q2 := fn()\nr = q1 + q2*3"),
+		c("map_lookup_ok_assign_form", "var mv uint64\nvar mok bool\nmv, mok = m[1]\nr = mv\nrb = mok"),
+		c("map_lookup_ok_paren", "mv, mok := (m[1])\nr = mv\nrb = mok"),
+		c("map_lookup_ok_missing", "mv, mok := m[77]\nr = mv + 5\nrb = mok"),
+		c("map_lookup_nested_in_define", "mv, mok := m[m[1]+1]\nr = mv + 5\nrb = mok"),
+		c("map_lookup_as_arg_in_define", "q1, q2 := two(m[1])\nr = q1\nrb = q2"),
+		c("nil_on_the_left", "var zp *uint64\nrb = nil == zp"),
+		c("nil_ne_on_the_left", "rb = nil != p"),
+		c("field_store_on_define_struct", "q := S2{a: x, b: 1}\nq.a = y + 2\nr = q.a + q.b"),
+		c("field_store_on_var_struct", "var q S2\nq.a = y + 2\nr = q.a + q.b"),
+		c("return_nil_pointer", "fn := func() *uint64 {\n\treturn nil\n}\nrb = fn() == nil"),
+		c("nil_field_init", "type NP struct {\n\tq *uint64\n}\nv := NP{q: nil}\nrb = v.q == nil"),
 		// builtins with fewer or more arguments than the usual two
 		c("append_no_elems", "ys := append(xs)\nr = uint64(len(ys))"),
 		c("append_two_elems", "ys := append(xs, x, y)\nr = ys[3] + ys[4]*3 + uint64(len(ys))"),
